@@ -508,7 +508,7 @@ class Sweep(object):
         base = run(scn, None)
         o = base['obs']
         cid = class_id(base['world'].tag)
-        if o[0] != 'val':
+        if o[0] not in ('val', 'tce'):
             ck.violation(('unrelated-exception:%s@%s' % (o[1], o[3])) if o[0] == 'exc' else '%s:%s:%s:fault-free' % (o[0], cid, scn.method),
                          'without any fault the operation ends with %s' % (o,),
                          {'scenario': scn.name, 'class': cid, 'method': scn.method, 'plan': None, 'observed': list(map(str, o))})
